@@ -611,7 +611,7 @@ def wl_fixed(ctx, route):
     """Fixed-sampling routes over the class grid; M1 is evaluated by the contract on every call, M2 here."""
     global CUR
     from prysm import propagation as P
-    rounds = ctx.pick(8, 360)
+    rounds = ctx.pick(8, 480)
     tag = 3 if route == 'focus' else 4
     k = -1
     done = 0
@@ -863,7 +863,7 @@ def wl_history(ctx):
     global CUR
     from prysm import propagation as P
     from prysm.conf import config
-    n = ctx.pick(400, 80000)
+    n = ctx.pick(400, 120000)
     maxlen = ctx.pick(6, 14)
     for k in range(n):
         if not ctx.mine(k):
@@ -951,7 +951,7 @@ def wl_repeat(ctx):
     from prysm.coordinates import make_xy_grid
     from ..util import precision
     from .c01 import repeat_laws
-    n = ctx.pick(400, 120000)
+    n = ctx.pick(400, 180000)
     for k in range(n):
         if not ctx.mine(k):
             continue
